@@ -208,7 +208,7 @@ def run(ck, facts, tier):
     n = own_table(ck, R, tk, m, variants, TY_OWN, "TyKind")
     lt = need_body(ck, facts, R, "chalk_ir::Lifetime::compute_flags")
     if lt:
-        lm = enum_matches(lt.thir, "chalk_ir::LifetimeData")
+        lm = enum_matches(facts.thir(lt.key), "chalk_ir::LifetimeData")
         if len(lm) == 1:
             n += own_table(ck, R, lt, lm[0], facts.variants("chalk_ir::LifetimeData"), LT_OWN, "LifetimeData", default_empty=False)
             for v in facts.variants("chalk_ir::LifetimeData"):
@@ -218,7 +218,7 @@ def run(ck, facts, tier):
             ck.violation(R, "Lifetime::compute_flags:match", lt.where(), "expected one match on LifetimeData")
     al = need_body(ck, facts, R, "chalk_ir::AliasTy::compute_flags")
     if al:
-        am = enum_matches(al.thir, "chalk_ir::AliasTy")
+        am = enum_matches(facts.thir(al.key), "chalk_ir::AliasTy")
         if len(am) == 1:
             n += own_table(ck, R, al, am[0], facts.variants("chalk_ir::AliasTy"), ALIAS_OWN, "AliasTy", default_empty=False)
             for v in facts.variants("chalk_ir::AliasTy"):
@@ -233,8 +233,8 @@ def run(ck, facts, tier):
     ga = need_body(ck, facts, R, "chalk_ir::GenericArg::compute_flags")
     tables = {}
     if ga:
-        gm = enum_matches(ga.thir, "chalk_ir::GenericArgData")
-        cms = enum_matches(ga.thir, "chalk_ir::ConstValue")
+        gm = enum_matches(facts.thir(ga.key), "chalk_ir::GenericArgData")
+        cms = enum_matches(facts.thir(ga.key), "chalk_ir::ConstValue")
         if len(gm) == 1 and len(cms) == 1:
             n += own_table(ck, R, ga, cms[0], facts.variants("chalk_ir::ConstValue"), CT_OWN, "GenericArg:ConstValue", default_empty=False)
             tables["generic"] = {v: flag_consts(cms[0]["arms"][select_arms(cms[0], V(v))[0][0]]["body"]) for v in facts.variants("chalk_ir::ConstValue")}
